@@ -15,7 +15,7 @@ for mp in sorted(glob.glob(os.path.join(HERE, "seeded", "*", "meta.json"))):
                                                  caught.replace("./check ", ""), " (" + mon + ")" if mon else "",
                                                  "missed at first; check strengthened" if first_missed else "first run"))
 tbl = ["<!-- seed-table:begin -->", "", "| seeded change | property | needs, in order to manifest | caught by (first monitor to fire) | history |",
-       "|---|---|---|---|---|"] + rows + ["", "%d seeded changes, all confirmed (demo 0 -> 1, suite passes with the change) and all caught by the quick tier." % len(rows)
+       "|---|---|---|---|---|"] + rows + ["", "%d seeded changes, all confirmed (demo 0 -> 1, suite passes with the change) and all caught: by the quick tier except where the column says thorough." % len(rows)
                                       if all("NOT CAUGHT" not in r for r in rows) else "%d seeded changes." % len(rows), "", "<!-- seed-table:end -->"]
 p = os.path.join(HERE, "DESIGN.md")
 s = open(p).read()
